@@ -201,6 +201,20 @@ func c08ChainFork(s *c08State, mk func() ast.Block) {
 				s.reobserve(op)
 			}
 			forks++
+			// a lookup that misses on a known predicate with never-seen strings, then one more
+			// derivation from the tip: nothing may have been interned into the tip's table
+			tipTok := f.Tokens[tip]
+			if len(tipTok.T.Blocks[0].Facts) > 0 {
+				known := tipTok.T.Blocks[0].Facts[0]
+				miss := ast.Pred{Name: known.Name, Terms: make([]ast.Term, len(known.Terms))}
+				for j := range miss.Terms {
+					miss.Terms[j] = ast.Str(fmt.Sprintf("lookup_only_%d_%d", d, j))
+				}
+				lib.Try(func() { tipTok.T.B.GetBlockID(miss.LibFact()) })
+				op = fmt.Sprintf("get-block-id(#%d, %s) [miss]", tip, miss.Key())
+				s.log(op)
+				s.reobserve(op)
+			}
 		}
 	}
 	if forks > 0 {
@@ -375,7 +389,16 @@ func c08Run(c *core.C) {
 			pi := lib.Try(func() {
 				tok.T.B.GetBlockID(ast.P(gen.Pick(r, c08FreshNames)+"_lookup", ast.Str(gen.Pick(r, c08FreshNames)+"_v")).LibFact())
 				if len(tok.T.Blocks[0].Facts) > 0 {
-					tok.T.B.GetBlockID(tok.T.Blocks[0].Facts[0].LibFact())
+					known := tok.T.Blocks[0].Facts[0]
+					tok.T.B.GetBlockID(known.LibFact())
+					// a miss on a KNOWN predicate name with strings the token has never seen
+					// (also nested in a set): the lookup must not intern them into the token
+					miss := ast.Pred{Name: known.Name, Terms: make([]ast.Term, len(known.Terms))}
+					for j := range miss.Terms {
+						miss.Terms[j] = ast.Str(fmt.Sprintf("never_seen_%d_%s", j, gen.Pick(r, c08FreshNames)))
+					}
+					tok.T.B.GetBlockID(miss.LibFact())
+					tok.T.B.GetBlockID(ast.P(known.Name, ast.SetOf(ast.Str("unseen_in_set_"+gen.Pick(r, c08FreshNames)))).LibFact())
 				}
 			})
 			if pi != nil {
